@@ -35,6 +35,7 @@ import (
 	"github.com/containerd/ttrpc"
 	"google.golang.org/grpc/codes"
 	"google.golang.org/grpc/status"
+	"google.golang.org/protobuf/proto"
 )
 
 const (
@@ -592,7 +593,7 @@ func (p *plugin) createContainer(ctx context.Context, req *CreateContainerReques
 
 	rpl, err := p.impl.CreateContainer(ctx, req)
 	if err != nil {
-		if isFatalError(err) {
+		if isFatalError(err, req) {
 			log.Errorf(ctx, "closing plugin %s, failed to handle CreateContainer request: %v",
 				p.name(), err)
 			p.close()
@@ -615,7 +616,7 @@ func (p *plugin) updateContainer(ctx context.Context, req *UpdateContainerReques
 
 	rpl, err := p.impl.UpdateContainer(ctx, req)
 	if err != nil {
-		if isFatalError(err) {
+		if isFatalError(err, req) {
 			log.Errorf(ctx, "closing plugin %s, failed to handle UpdateContainer request: %v",
 				p.name(), err)
 			p.close()
@@ -638,7 +639,7 @@ func (p *plugin) stopContainer(ctx context.Context, req *StopContainerRequest) (
 
 	rpl, err = p.impl.StopContainer(ctx, req)
 	if err != nil {
-		if isFatalError(err) {
+		if isFatalError(err, req) {
 			log.Errorf(ctx, "closing plugin %s, failed to handle StopContainer request: %v",
 				p.name(), err)
 			p.close()
@@ -659,7 +660,7 @@ func (p *plugin) updatePodSandbox(ctx context.Context, req *UpdatePodSandboxRequ
 	defer cancel()
 
 	if _, err := p.impl.UpdatePodSandbox(ctx, req); err != nil {
-		if isFatalError(err) {
+		if isFatalError(err, req) {
 			log.Errorf(ctx, "closing plugin %s, failed to handle event %d: %v",
 				p.name(), Event_UPDATE_POD_SANDBOX, err)
 			p.close()
@@ -681,7 +682,7 @@ func (p *plugin) StateChange(ctx context.Context, evt *StateChangeEvent) (err er
 	defer cancel()
 
 	if err = p.impl.StateChange(ctx, evt); err != nil {
-		if isFatalError(err) {
+		if isFatalError(err, evt) {
 			log.Errorf(ctx, "closing plugin %s, failed to handle event %d: %v",
 				p.name(), evt.Event, err)
 			p.close()
@@ -694,7 +695,7 @@ func (p *plugin) StateChange(ctx context.Context, evt *StateChangeEvent) (err er
 }
 
 // isFatalError returns true if the error is fatal and the plugin connection should be closed.
-func isFatalError(err error) bool {
+func isFatalError(err error, req proto.Message) bool {
 	switch {
 	case errors.Is(err, ttrpc.ErrClosed):
 		return true
@@ -704,6 +705,11 @@ func isFatalError(err error) bool {
 		return true
 	case errors.Is(err, context.DeadlineExceeded):
 		return true
+	case errors.Is(err, proto.Error):
+		// The plugin broke the protocol if its response cannot be decoded. Failing
+		// to encode our own request is not the plugin's fault, though.
+		_, encErr := proto.Marshal(req)
+		return encErr == nil
 	}
 	return false
 }
